@@ -3,7 +3,7 @@
 #   CORPUS_ONLY=<regex> restricts the run to matching patch names
 #   benign/*.diff  behaviour-preserving rewrites -> every check must stay silent (a VIOLATION is a false alarm)
 #   seeded/*/patch.diff  property-breaking changes -> the property's own check must report a VIOLATION
-# Facts of each patched tree are extracted once (sequentially, /repo is patched and restored each time), then all 20
+# Facts of each patched tree are extracted once (sequentially, in a scratch worktree of /repo under /tmp that is removed afterwards), then all 20
 # checks run on the stored facts in parallel.
 cd /verif
 WHAT=${1:-all}
@@ -15,8 +15,10 @@ if [ -n "${CORPUS_ONLY:-}" ]; then tmp=(); for e in "${list[@]}"; do IFS=: read 
 for e in "${list[@]}"; do
   IFS=: read kind name diff <<< "$e"
   f=$PF/$kind-$name.json
-  if [ ! -s $f ] || [ $diff -nt $f ]; then tools/patch_facts.sh $diff $f >/dev/null 2>&1 || echo "EXTRACT-FAILED $kind $name"; fi
+  if [ ! -s $f ] || [ $diff -nt $f ]; then tools/patch_facts_wt.sh $diff $f >/dev/null 2>&1 || echo "EXTRACT-FAILED $kind $name"; fi
 done
+# the scratch worktree and its build output are only needed for the extraction above
+[ -d /tmp/pf_wt ] && git -C /repo worktree remove --force /tmp/pf_wt >/dev/null 2>&1; rm -rf /tmp/pf_tgt
 run_one() {
   IFS=: read kind name diff <<< "$1"
   f=/verif/.cache/pf/$kind-$name.json
